@@ -37,7 +37,7 @@ MANIFEST = {
 TOWERS = [("north", 50.0003, 10.0004, 5), ("south", 50.0001, 10.0008, 7.5), ("mast3", 50.0004, 10.0002, 6)]
 
 
-def make_config(nt, ns, use_cache, footprint=True, variant="plain", src_loc=None):
+def make_config(nt, ns, use_cache, footprint=True, variant="plain", src_loc=None, levels=None, single_row=False, snap=False):
     from bldfm.config_parser import parse_config_dict
 
     ust = [0.30, 0.45, 0.30, 0.38]  # step 2 repeats step 0 (cache hit inside one series)
@@ -49,15 +49,21 @@ def make_config(nt, ns, use_cache, footprint=True, variant="plain", src_loc=None
     if variant == "dup-labels" and ns >= 2:
         # local-time labels over the end of daylight-saving time: the last label repeats the first, the conditions differ
         stamps[-1] = stamps[0]
-    return parse_config_dict(
+    cfg_ = parse_config_dict(
         {
-            "domain": {"nx": 8, "ny": 6, "xmax": 80.0, "ymax": 60.0, "nz": 4, "modes": [8, 6], "ref_lat": 50.0, "ref_lon": 10.0, "halo": 20.0},
+            "domain": dict({"nx": 8, "ny": 6, "xmax": 80.0, "ymax": 60.0, "nz": 4, "modes": [8, 6], "ref_lat": 50.0, "ref_lon": 10.0, "halo": 20.0},
+                           **({"output_levels": levels} if levels else {}), **({"ny": 1, "ymax": 10.0, "modes": [64, 64]} if single_row else {})),
             "towers": [{"name": n, "lat": la, "lon": lo, "z_m": zm} for n, la, lo, zm in TOWERS[:nt]],
             "met": {"ustar": ust[:ns], "wind_dir": wdir[:ns], "mol": -50, "wind_speed": 3, "timestamps": stamps},
             "solver": dict({"footprint": footprint, "precision": "double"}, **({"src_loc": src_loc} if src_loc else {})),
             "parallel": {"use_cache": use_cache},
         }
     )
+    if snap:
+        # the user snaps the towers (located by lat/lon) onto grid nodes AFTER the configuration was built
+        for t in cfg_.towers:
+            t.x, t.y = round(t.x / 10.0) * 10.0, round(t.y / 10.0) * 10.0
+    return cfg_
 
 
 def _same_result(got, want, tol=1e-12):
@@ -77,6 +83,16 @@ def _same_result(got, want, tol=1e-12):
         if not np.array_equal(np.asarray(a), np.asarray(b)):
             return "grid[%d] differs" % i
     return None
+
+
+def _caller_overwrites(res):
+    # the caller owns what a driver returned: it normalises / converts the arrays in place
+    for lst in (res.values() if isinstance(res, dict) else [res]):
+        for r in lst:
+            for k in ("conc", "flx"):
+                a = np.asarray(r[k])
+                if a.flags.writeable and a.size:
+                    a[...] = -999.0
 
 
 def _compare(res, ref, cfg, ns, what):
@@ -106,17 +122,21 @@ def case_pool(case):
 
     nt, ns = case["shape"]
     strat, W = case["strategy"], case["W"]
+    opts = dict(levels=case.get("levels"), single_row=case.get("single_row", False), snap=case.get("snap", False))
     if case.get("earlier_run_other_source"):
         # an EARLIER run in the same working directory (same domain, towers, met; source somewhere else) has left its
         # files behind (only matters if something is cached on disk)
-        cfg0 = make_config(nt, ns, case["cache"], case.get("footprint", True), case.get("variant", "plain"), src_loc=[20.0, 15.0])
+        cfg0 = make_config(nt, ns, case["cache"], case.get("footprint", True), case.get("variant", "plain"), src_loc=[20.0, 15.0], **opts)
         bi.run_bldfm_multitower(cfg0)
         bi.run_bldfm_parallel(cfg0, max_workers=2, parallel_over="towers")
-    cfg = make_config(nt, ns, case["cache"], case.get("footprint", True), case.get("variant", "plain"), src_loc=[55.0, 40.0] if case.get("earlier_run_other_source") else None)
+    cfg = make_config(nt, ns, case["cache"], case.get("footprint", True), case.get("variant", "plain"), src_loc=[55.0, 40.0] if case.get("earlier_run_other_source") else None, **opts)
     orig_single, orig_ts = bi.run_bldfm_single, bi.run_bldfm_timeseries
     v = []
     # (1) reference single runs: fresh process, one thread, no cache
     ref = {t.name: [orig_single(cfg, t, met_index=i) for i in range(ns)] for t in cfg.towers}
+    for lst in ref.values():
+        for r_ in lst:
+            r_["conc"], r_["flx"] = np.array(r_["conc"], copy=True), np.array(r_["flx"], copy=True)
     nexec = nt * ns
     # (2) parent thread state
     if case["parent_threads"] > 1:
@@ -131,6 +151,7 @@ def case_pool(case):
         r = {t.name: bi.run_bldfm_timeseries(cfg, t) for t in cfg.towers}
         for m in _compare(r, ref, cfg, ns, "run_bldfm_timeseries"):
             v.append({"sub": "serial", "sig": "serial/timeseries", "msg": m + "; case " + core.canon(case)})
+        _caller_overwrites(r)
         r = bi.run_bldfm_multitower(cfg)
         nexec += 2 * nt * ns
         for m in _compare(r, ref, cfg, ns, "run_bldfm_multitower"):
@@ -222,7 +243,9 @@ def case_pool(case):
                 raise core.HarnessError("completion order observed in the parent %r != prescribed %r" % (observed, sched))
             if any(list(o) != sorted(o) for o in sched):
                 inversions += 1
-            for m in _compare(res, ref, cfg, ns, "run_bldfm_parallel[%s, W=%d]" % (strat, W)):
+            cmp_msgs = _compare(res, ref, cfg, ns, "run_bldfm_parallel[%s, W=%d]" % (strat, W))
+            _caller_overwrites(res)
+            for m in cmp_msgs:
                 v.append({"sub": "parallel", "sig": "parallel/%s/%s" % (strat, "inorder" if all(list(o) == sorted(o) for o in sched) else "reordered"),
                           "msg": "%s under completion order %r; case %s" % (m, [list(o) for o in sched], core.canon({k: case[k] for k in case if k != "orders"}))})
     finally:
@@ -243,7 +266,9 @@ def cells(tier):
         if ntasks >= 6 and W >= 4 and (pt != 1 or cache):
             continue  # 384-600 orders per cell: replayed once (one thread setting, cache off)
         variant = ("plain", "dup-labels", "steady")[(W + nt + ns + (1 if cache else 0)) % 3]
-        yield {"shape": list(shape), "strategy": strat, "W": W, "parent_threads": pt, "cache": cache, "ntasks": ntasks, "npools": npools, "variant": variant}
+        k_ = (2 * W + nt + 3 * ns + pt) % 4
+        extra = [{}, {"levels": [1, 3]}, {"snap": True}, {"levels": [3, 0, 4], "single_row": True}][k_]
+        yield dict({"shape": list(shape), "strategy": strat, "W": W, "parent_threads": pt, "cache": cache, "ntasks": ntasks, "npools": npools, "variant": variant}, **extra)
     # dispersion mode with the cache switched on and an earlier run with another source in the same directory
     for shape, strat, W in itertools.product([(2, 2), (1, 3)] if tier == "quick" else [(2, 2), (1, 3), (2, 3)], ("towers", "time", "both"), (1, 2, 3)):
         nt, ns = shape
